@@ -319,7 +319,7 @@ def run(tier, seed, work):
                 tasks.append((opname, k, e, os.path.join(work, "t-%d-%d-%s" % (i, k, e)), shim, base, role(t["phys"], os.path.join(root, "w"))))
     for d in vp.pimap(task, tasks, chunksize=4):
         res.merge(d)
-    nh = 400 if tier == "quick" else 6000
+    nh = 400 if tier == "quick" else 30000
     for d in vp.pimap(history_fault_case, [(i, seed, work, shim) for i in range(nh)], chunksize=8):
         res.merge(d)
     res.extra["history_fault_cases"] = nh
